@@ -1,12 +1,39 @@
 package main
 
 import (
+	"bufio"
+	"encoding/json"
 	"flag"
 	"fmt"
 	"os"
 
 	"verif/harness/registry"
 )
+
+func init() {
+	register("registry-hist", func(args []string) int {
+		fs := flag.NewFlagSet("registry-hist", flag.ExitOnError)
+		seed := fs.Int64("seed", 1, "seed")
+		n := fs.Int("n", 200, "histories")
+		hist := fs.String("hist", "", "ndjson output")
+		fs.Parse(args)
+		f, err := os.Create(*hist)
+		if err != nil {
+			fmt.Fprintln(os.Stderr, err)
+			return 2
+		}
+		defer f.Close()
+		bw := bufio.NewWriter(f)
+		defer bw.Flush()
+		for i := 1; i <= *n; i++ {
+			h := registry.RunRegistryHistory(i, *seed*7919+int64(i))
+			b, _ := json.Marshal(h)
+			bw.Write(b)
+			bw.WriteByte('\n')
+		}
+		return 0
+	})
+}
 
 func init() {
 	register("registry-replay", func(args []string) int {
